@@ -8,5 +8,6 @@ mkdir -p .build evidence replays
 ( cd coq && coq_makefile -f _CoqProject -o Makefile >/dev/null && timeout 3000 make -j16 >/dev/null )
 for m in harness/go/*/; do
   ( cd "$m" && go build -tags verif -o "../../../.build/$(basename "$m")" . ) || echo "warning: warm build of $m failed"
+  ( cd "$m" && go build -race -tags verif -o "../../../.build/$(basename "$m")-race" . ) || echo "warning: warm -race build of $m failed"
 done
 echo setup ok
